@@ -5,21 +5,45 @@ package otr3
 import (
 	"fmt"
 	"os"
+	"path/filepath"
+	"runtime"
 	"runtime/debug"
+	"sort"
 	"testing"
 )
 
 // TestVReplay runs one harness natively on the assignment in VERIF_REPLAY and
 // prints VRESULT lines that the engine compares with the symbolic verdict.
 func TestVReplay(t *testing.T) {
-	name := os.Getenv("VERIF_HARNESS")
+	if dir := os.Getenv("VERIF_REPLAY_BATCH"); dir != "" {
+		files, _ := filepath.Glob(filepath.Join(dir, "*.json"))
+		sort.Strings(files)
+		for _, f := range files {
+			fmt.Printf("VBATCH %s\n", filepath.Base(f))
+			vState.loaded = false
+			os.Setenv("VERIF_REPLAY", f)
+			vLoad()
+			vRunOne(vState.file.Harness)
+		}
+		return
+	}
+	vLoad()
+	vRunOne(os.Getenv("VERIF_HARNESS"))
+}
+
+func vRunOne(name string) {
 	fn, ok := vHarnessTable[name]
 	if !ok {
 		fmt.Printf("VRESULT unknown-harness %s\n", name)
 		return
 	}
-	vLoad()
 	vReset()
+	inputBytes := uint64(0)
+	for _, v := range vState.file.Assign {
+		inputBytes += uint64(len(v)+1) / 2
+	}
+	var m0, m1 runtime.MemStats
+	runtime.ReadMemStats(&m0)
 	func() {
 		defer func() {
 			if r := recover(); r != nil {
@@ -33,6 +57,10 @@ func TestVReplay(t *testing.T) {
 		fn()
 		fmt.Println("VRESULT completed")
 	}()
+	runtime.ReadMemStats(&m1)
+	if d := m1.TotalAlloc - m0.TotalAlloc; d > 64*inputBytes+(16<<20) {
+		fmt.Printf("VRESULT alloc %d bytes allocated for %d input bytes\n", d, inputBytes)
+	}
 	for _, f := range vState.fails {
 		fmt.Printf("VRESULT fail %s\n", f)
 	}
